@@ -426,6 +426,10 @@ def build_cases(seed, tier):
 
     for c in corpus.cases():
         add(c['id'], c['rules'], False, c['inputs'], c['tags'], solo=c.get('solo', False))
+    # the grammar/input on which a check first caught each seeded change (seeded/<id>/replay_from_check.json): kept as pinned
+    # cases so that a shift of the random stream cannot lose them (grammar given as text + s-expression, no AST)
+    for c in corpus.seeded_replays():
+        cases.append(c)
     maxlen = 60 if thorough else 40
     for fam in ('mix', 'hooks', 'ws', 'multibyte'):
         n, ni = size(fam)
@@ -576,7 +580,7 @@ def get_suite(seed, tier):
         out = dict(key=key, seed=seed, tier=tier, wall_s=time.time() - t0, timing=res['timing'],
                    gen={k: list(v) for k, v in res['gen'].items()}, compile_fail=res['compile_fail'], hist=res['hist'],
                    cases=[dict(id=c['id'], tags=c['tags'], group=c['group'], variant=c['variant'], uctx=c['settings']['uctx'],
-                               text=gast.pp_grammar(c['rules']), sexp=gast.sx_grammar(c['rules']),
+                               text=c.get('text') or gast.pp_grammar(c['rules']), sexp=c.get('sexp') or gast.sx_grammar(c['rules']),
                                inputs=[[r, s] for r, s in c['inputs']]) for c in cases],
                    impl={'%s\t%d' % k: v for k, v in res['impl'].items()},
                    model={'%s\t%d' % k: v for k, v in res['model'].items()})
